@@ -13,7 +13,7 @@ PKG = "internal/index/builder"
 
 WIRE_DEFAULTS = {
     "NConv": 3, "MaxMsgs": 4, "MaxLen": 4, "MaxSeg": 3, "Protos": '{"tcp", "udp"}', "Fams": "{4, 6}",
-    "MaxDup": 3, "MaxDisp": 2, "MaxSwap": 4, "MaxPerturb": 99, "MaxCuts": 3, "MinCuts": 0, "MaxAck": 3, "MaxBulk": 0,
+    "MaxDup": 3, "MaxDisp": 2, "MaxSwap": 4, "MaxPerturb": 99, "MaxCuts": 3, "MinCuts": 0, "MaxAck": 3, "MaxBulk": 0, "MaxFrag": 0,
     "Dts": "{0, 1}", "BatchMode": '"any"', "MinBulk": 0, "WantCutAfterBulk": "FALSE", "SingleFileBatches": "FALSE",
 }
 REGIMES = {
@@ -32,6 +32,8 @@ REGIMES = {
     "bulk2": {"NConv": 2, "MaxSeg": 2, "MaxDup": 1, "MaxDisp": 1, "MaxSwap": 1, "MaxCuts": 3, "MinCuts": 2,
               "MaxAck": 1, "MaxBulk": 2, "MinBulk": 2, "WantCutAfterBulk": "TRUE", "BatchMode": '"chrono"',
               "SingleFileBatches": "TRUE"},
+    # IPv4 packets split into two IP fragments (in order or reversed), next to reordering, duplicates and cuts
+    "frag": {"Fams": "{4}", "MaxFrag": 4, "MaxLen": 4, "MaxSeg": 3, "MaxDup": 2, "MaxSwap": 2},
     # worlds for C08: exactly four capture files, batching left to Import.tla
     "world4": {"MaxCuts": 3, "MinCuts": 3, "BatchMode": '"none"', "MaxDup": 2, "MaxSwap": 2},
     "world4slow": {"MaxCuts": 3, "MinCuts": 3, "BatchMode": '"none"', "MaxDup": 1, "MaxSwap": 1, "Dts": "{0, 1, 120000}"},
@@ -453,8 +455,8 @@ def run_c05(ctx):
     picked = exhaustive if len(exhaustive) <= n_ex else rng.sample(exhaustive, n_ex)
     # (A) seeded simulation beyond
     base = ctx.seed * 100
-    plan = ([("fast", 40, 2), ("slow", 30, 2), ("deep", 30, 1), ("bulk", 5, 2), ("bulkany", 2, 1)] if quick else
-            [("fast", 200, 8), ("slow", 120, 6), ("deep", 120, 6), ("bulk", 6, 6), ("bulkany", 5, 4), ("bulk2", 3, 3)])
+    plan = ([("fast", 40, 2), ("slow", 30, 2), ("deep", 30, 1), ("frag", 30, 2), ("bulk", 5, 2), ("bulkany", 2, 1)] if quick else
+            [("fast", 200, 8), ("slow", 120, 6), ("deep", 120, 6), ("frag", 120, 6), ("bulk", 6, 6), ("bulkany", 5, 4), ("bulk2", 3, 3)])
     sims = []
     for i, (regime, num, nseeds) in enumerate(plan):
         if only and regime not in only:
